@@ -22,9 +22,29 @@ OBLIGATIONS = [
     ob('idiff_roundtrip_days', ['IDIFF', 'DMAX=4000', 'DAYSONLY'], enc=['idiff_strf', 'idiff_strp', 'ui32tostr', 'ilog10_ceil', 'ilog2_ceil'], sym='the number of days', bounds='0 .. 4000 whole days', unwindset=dict(IDP, **{'harness.0': 65, 'sym_load.*': 17})),
     ob('idiff_roundtrip_subday', ['IDIFF', 'SUBDAY'], enc=['idiff_strf', 'idiff_strp', 'ui32tostr', 'ilog10_ceil'], sym='hours, minutes, seconds', bounds='every whole-second duration below one day', unwindset=dict(IDP, **{'harness.0': 65, 'sym_load.*': 17})),
     ob('idiff_roundtrip', ['IDIFF', 'DMAX=4000'], enc=['idiff_strf', 'idiff_strp', 'ui32tostr', 'ilog10_ceil', 'ilog2_ceil'], sym='the duration', bounds='0 .. 4000 days in whole seconds', tiers=('thorough',), timeout=3400, unwindset=dict(IDP, **{'harness.0': 65, 'sym_load.*': 17})),
-    ob('idiff_spellings_cadical', ['SPELL'], solver='cadical', tiers=('probe',), enc=['idiff_strp'], unwindset=dict(IDP, **{'harness.*': 65, 'sym_load.*': 17})),
-    ob('idiff_spellings_cvc5', ['SPELL'], solver='cvc5int', checks=[], tiers=('probe',), enc=['idiff_strp'], unwindset=dict(IDP, **{'harness.*': 65, 'sym_load.*': 17})),
-    ob('idiff_spellings', ['SPELL'], enc=['idiff_strp'], sym='15 digits, digit counts, which components are present, leading sign',
+    ob('idiff_spelling_WDHMS_2digits_sign0', ['SPELL', 'SHAPE=31', 'NDIG=2', 'SIGN=0'], enc=['idiff_strp'], sym='every digit of every component',
+       bounds='layout WDHMS with 2 digit(s) per component', unwindset=dict(IDP, **{'harness.*': 65, 'sym_load.*': 17}), tiers=('quick', 'thorough')),
+    ob('idiff_spelling_WDHMS_3digits_sign1', ['SPELL', 'SHAPE=31', 'NDIG=3', 'SIGN=1'], enc=['idiff_strp'], sym='every digit of every component',
+       bounds='layout +WDHMS with 3 digit(s) per component', unwindset=dict(IDP, **{'harness.*': 65, 'sym_load.*': 17}), tiers=('quick', 'thorough')),
+    ob('idiff_spelling_W_3digits_sign2', ['SPELL', 'SHAPE=1', 'NDIG=3', 'SIGN=2'], enc=['idiff_strp'], sym='every digit of every component',
+       bounds='layout -W with 3 digit(s) per component', unwindset=dict(IDP, **{'harness.*': 65, 'sym_load.*': 17}), tiers=('quick', 'thorough')),
+    ob('idiff_spelling_D_3digits_sign0', ['SPELL', 'SHAPE=2', 'NDIG=3', 'SIGN=0'], enc=['idiff_strp'], sym='every digit of every component',
+       bounds='layout D with 3 digit(s) per component', unwindset=dict(IDP, **{'harness.*': 65, 'sym_load.*': 17}), tiers=('thorough',)),
+    ob('idiff_spelling_WD_2digits_sign2', ['SPELL', 'SHAPE=3', 'NDIG=2', 'SIGN=2'], enc=['idiff_strp'], sym='every digit of every component',
+       bounds='layout -WD with 2 digit(s) per component', unwindset=dict(IDP, **{'harness.*': 65, 'sym_load.*': 17}), tiers=('quick', 'thorough')),
+    ob('idiff_spelling_HMS_2digits_sign0', ['SPELL', 'SHAPE=28', 'NDIG=2', 'SIGN=0'], enc=['idiff_strp'], sym='every digit of every component',
+       bounds='layout HMS with 2 digit(s) per component', unwindset=dict(IDP, **{'harness.*': 65, 'sym_load.*': 17}), tiers=('quick', 'thorough')),
+    ob('idiff_spelling_H_3digits_sign1', ['SPELL', 'SHAPE=4', 'NDIG=3', 'SIGN=1'], enc=['idiff_strp'], sym='every digit of every component',
+       bounds='layout +H with 3 digit(s) per component', unwindset=dict(IDP, **{'harness.*': 65, 'sym_load.*': 17}), tiers=('thorough',)),
+    ob('idiff_spelling_M_3digits_sign0', ['SPELL', 'SHAPE=8', 'NDIG=3', 'SIGN=0'], enc=['idiff_strp'], sym='every digit of every component',
+       bounds='layout M with 3 digit(s) per component', unwindset=dict(IDP, **{'harness.*': 65, 'sym_load.*': 17}), tiers=('thorough',)),
+    ob('idiff_spelling_S_3digits_sign2', ['SPELL', 'SHAPE=16', 'NDIG=3', 'SIGN=2'], enc=['idiff_strp'], sym='every digit of every component',
+       bounds='layout -S with 3 digit(s) per component', unwindset=dict(IDP, **{'harness.*': 65, 'sym_load.*': 17}), tiers=('thorough',)),
+    ob('idiff_spelling_DHS_2digits_sign1', ['SPELL', 'SHAPE=22', 'NDIG=2', 'SIGN=1'], enc=['idiff_strp'], sym='every digit of every component',
+       bounds='layout +DHS with 2 digit(s) per component', unwindset=dict(IDP, **{'harness.*': 65, 'sym_load.*': 17}), tiers=('thorough',)),
+    ob('idiff_spelling_DMS_3digits_sign0', ['SPELL', 'SHAPE=26', 'NDIG=3', 'SIGN=0'], enc=['idiff_strp'], sym='every digit of every component',
+       bounds='layout DMS with 3 digit(s) per component', unwindset=dict(IDP, **{'harness.*': 65, 'sym_load.*': 17}), tiers=('thorough',)),
+    ob('idiff_spellings', ['SPELL'], tiers=('thorough',), timeout=3400, enc=['idiff_strp'], sym='15 digits, digit counts, which components are present, leading sign',
        bounds='components of 1..3 digits each (weeks, days, hours, minutes, seconds up to 999)', unwindset=dict(IDP, **{'harness.*': 65, 'sym_load.*': 17})),
     ob('range_roundtrip', ['RANGE'], enc=['range_strf', 'range_strp', 'dt_strf', 'dt_strp'], sym='both instants', bounds='every pair of valid instants'),
     ob('ui32tostr_digits', ['DIGITS'], enc=['ui32tostr', 'ilog10_ceil', 'ilog2_ceil'], sym='the 32-bit value', bounds='all values 1..2^32-1'),
